@@ -396,6 +396,34 @@ func VerifC09_Shapes() {
 			want = gpw.AppendBytes(gpw.AppendTag(want, 9, gpw.BytesType), e)
 		}
 		doc.add("mm", o)
+	case 11: // null as a map value, followed by a further entry and further members
+		o := jO()
+		o.add("k0", &jv{kind: jNull})
+		v := int64(int32(vrt.U32()))
+		o.add("k1", jI(v))
+		doc.add("ms", o)
+		var e1 []byte
+		e1 = gpw.AppendBytes(gpw.AppendTag(e1, 1, gpw.BytesType), []byte("k1"))
+		e1 = gpw.AppendVarint(gpw.AppendTag(e1, 2, gpw.VarintType), uint64(v))
+		// the null-valued entry: key only, or key with the zero value, or no entry at all
+		k0 := gpw.AppendBytes(gpw.AppendTag(nil, 1, gpw.BytesType), []byte("k0"))
+		k0z := gpw.AppendVarint(gpw.AppendTag(append([]byte{}, k0...), 2, gpw.VarintType), 0)
+		tail := []byte{}
+		a := int32(vrt.U8() & 0x7f)
+		doc.add("a", jI(int64(a)))
+		tail = gpw.AppendVarint(gpw.AppendTag(tail, 1, gpw.VarintType), uint64(int64(a)))
+		rest := append(gpw.AppendBytes(gpw.AppendTag(nil, 6, gpw.BytesType), e1), tail...)
+		w1 := append(append(append([]byte{}, want...), gpw.AppendBytes(gpw.AppendTag(nil, 6, gpw.BytesType), k0)...), rest...)
+		w2 := append(append(append([]byte{}, want...), gpw.AppendBytes(gpw.AppendTag(nil, 6, gpw.BytesType), k0z)...), rest...)
+		w3 := append(append([]byte{}, want...), rest...)
+		out, err := verifConvert(desc, doc, opts)
+		vrt.Assert(err == nil, "C09.shapes.null-map-value.converts")
+		if err != nil {
+			return
+		}
+		vrt.Reach("converted")
+		verifC09Check(out, w1, "C09.shapes.null-map-value", w2, w3)
+		return
 	case 7: // null member: denotes the absent field
 		doc.add("a", &jv{kind: jNull})
 	case 8, 9, 10: // unknown member: scalar / object / array
@@ -482,4 +510,75 @@ func VerifC09_Mismatch() {
 	_, err := verifConvert(desc, doc, opts)
 	vrt.Reach("done")
 	vrt.Assert(err != nil, "C09.mismatch.error")
+}
+
+func init() { vrt.Register("VerifC09_MapKey", VerifC09_MapKey) }
+
+// VerifC09_MapKey: {"mk": {"<key text>": V}} for a map<KT,int32> of every key kind; KV picks the
+// key from a table of boundary values of the kind (keys are text, so they are concrete).
+func VerifC09_MapKey() {
+	kt := proto.Type(vrt.Param("KT"))
+	kv := vrt.Param("KV")
+	m := proto.VerifNewMessage("MK")
+	proto.VerifAddMap(m, 1, "mk", "mk", proto.VerifBasic(kt), proto.VerifBasic(proto.INT32))
+	proto.VerifAddField(m, 2, "a", "a", proto.VerifBasic(proto.INT32), false)
+	proto.VerifBuild(m)
+	var keyText string
+	var keyBits uint64
+	switch kt {
+	case proto.BOOL:
+		keyText = []string{"false", "true", "true", "false", "true"}[kv]
+		if keyText == "true" {
+			keyBits = 1
+		}
+	case proto.STRING:
+		keyText = []string{"", "k", "kk", "0", "a b"}[kv]
+	case proto.INT32, proto.SINT32, proto.SFIX32:
+		v := []int64{0, 1, -1, math.MaxInt32, math.MinInt32}[kv]
+		keyText, keyBits = strconv.FormatInt(v, 10), uint64(v)
+	case proto.INT64, proto.SINT64, proto.SFIX64:
+		v := []int64{0, 1, -1, math.MaxInt64, math.MinInt64}[kv]
+		keyText, keyBits = strconv.FormatInt(v, 10), uint64(v)
+	case proto.UINT32, proto.FIX32:
+		v := []uint64{0, 1, 1 << 31, math.MaxUint32, 1<<31 - 1}[kv]
+		keyText, keyBits = strconv.FormatUint(v, 10), v
+	case proto.UINT64, proto.FIX64:
+		v := []uint64{0, 1, 1 << 63, math.MaxUint64, 1<<63 - 1}[kv]
+		keyText, keyBits = strconv.FormatUint(v, 10), v
+	}
+	val := int64(int32(vrt.U32()))
+	doc := jO().add("mk", jO().add(keyText, jI(val)))
+	var e []byte
+	e = gpw.AppendTag(e, 1, verifWire(kt))
+	switch kt {
+	case proto.STRING:
+		e = gpw.AppendBytes(e, []byte(keyText))
+	case proto.SINT32, proto.SINT64:
+		e = gpw.AppendVarint(e, gpw.EncodeZigZag(int64(keyBits)))
+	case proto.FIX32, proto.SFIX32:
+		e = gpw.AppendFixed32(e, uint32(keyBits))
+	case proto.FIX64, proto.SFIX64:
+		e = gpw.AppendFixed64(e, keyBits)
+	default:
+		e = gpw.AppendVarint(e, keyBits)
+	}
+	e = gpw.AppendVarint(gpw.AppendTag(e, 2, gpw.VarintType), uint64(val))
+	want := gpw.AppendBytes(gpw.AppendTag(nil, 1, gpw.BytesType), e)
+	if vrt.Bool() {
+		doc.add("a", jI(3))
+		want = gpw.AppendVarint(gpw.AppendTag(want, 2, gpw.VarintType), 3)
+	}
+	out, err := verifConvert(m, doc, conv.Options{})
+	vrt.Assert(err == nil, "C09.mapkey.converts")
+	if err != nil {
+		return
+	}
+	vrt.Reach("converted")
+	vrt.Dump("C09.mapkey want", want)
+	vrt.Dump("C09.mapkey got ", out)
+	_, ok := vrt.PFields(out)
+	vrt.Assert(ok, "C09.mapkey.well-formed")
+	if ok {
+		vrt.Assert(vrt.PEq(want, out, &vrt.PSchema{Sub: map[int]*vrt.PSchema{1: {}}}, 3), "C09.mapkey.equals-denoted-message")
+	}
 }
